@@ -20,10 +20,11 @@ EarlyAccept(ord) == \E i \in 1..Len(ord) : ord[i].beh = "accept" /\ \A j \in 1..
 G17_succeedsIffSomeAccepts(e, ord) ==
   IF e.T = 0 THEN (e.res = "ok") <=> (AcceptKeys(ord) # {})
   ELSE (e.res = "ok") <=> EarlyAccept(ord)
+\* (a success for which no accepting listener saw the request - winner "-" - is a failure of this guard, not an evaluation error)
 G17_winnerAccepted(e, ord) == e.res = "ok" => <<e.winner[1], e.winner[2]>> \in AcceptKeys(ord)
 G17_attemptOrder(e, ord) == IsPrefix([i \in 1..Len(e.spawns) |-> <<e.spawns[i][1], e.spawns[i][2]>>], Keys(ord))
 G17_unresponsiveCostsOneInterval(e, ord) ==
-  e.res = "ok" => e.elapsed <= RaceMs * BhBefore(ord, FirstAccept(ord)) + SlackMs
+  (e.res = "ok" /\ AcceptKeys(ord) # {}) => e.elapsed <= RaceMs * BhBefore(ord, FirstAccept(ord)) + SlackMs
 G17_honestFailure(e, ord) ==
   e.res # "ok" => (e.res = "err" /\ ((ord # <<>> /\ e.T = 0) => e.kind \in {"Io:ConnectionRefused", "Io:TimedOut"}))
 HGuards == {"G17_succeedsIffSomeAccepts", "G17_winnerAccepted", "G17_attemptOrder", "G17_unresponsiveCostsOneInterval", "G17_honestFailure"}
